@@ -7,6 +7,23 @@ COMMON_ASSUME = [
 ]
 
 PROPS = {
+    # temporary entry added by the C08 builder (lead: replace/adjust as needed)
+    "C08": {
+        "pkg": "c08",
+        "level": "exploration",
+        "rule": ("sigma protocols (Schnorr, batch Schnorr, Okamoto, elcomop, elog, AND / OR compositions of depth <= 2, Paillier and "
+                 "CGGMP21 proofs on fixture primes) x compiler (Fiat-Shamir, Fischlin, randomised Fischlin, interactive zk compiler, plain "
+                 "interactive sigma) x group x drawn statement/witness x drawn session context: completeness in a clone of the context; the "
+                 "same proof bytes rejected under another session id, another transcript state, another prover-id label, another valid "
+                 "statement, a statement with one component altered, another compiler or sigma-protocol name; one structure-aware CBOR "
+                 "mutation of the proof bytes must be rejected iff the typed decoding changes (same canonical re-encoding => still accepted), "
+                 "never a panic; extractor on two honest transcripts with one commitment returns a valid witness; simulated transcripts "
+                 "verify; OR proves with exactly one witness (each branch) and refuses with none. Non-trivial: every negative case and every "
+                 "completeness case with a drawn context; distinct = (protocol, compiler, composition shape, group, negative-case kind)."),
+        "assumptions": COMMON_ASSUME,
+        "quick": {"scale": 1, "shards": 16, "timeout_s": 900},
+        "thorough": {"scale": 10, "shards": 16, "timeout_s": 7200},
+    },
     # temporary entry added by the C16 builder (lead: replace/adjust as needed)
     "C16": {
         "pkg": "c16",
